@@ -31,23 +31,23 @@ type World struct {
 	API   string `json:"api,omitempty"`   // entry point variant
 
 	// Histories / multi-task worlds.
-	Steps  []Step   `json:"steps,omitempty"`
-	Tasks  [][]Step `json:"tasks,omitempty"`
-	Sched  []int    `json:"sched,omitempty"`   // explicit schedule: scheduler choices in order
-	ChCap  int      `json:"ch_cap,omitempty"`  // EventChan capacity
-	Extra  map[string]string `json:"extra,omitempty"`
+	Steps []Step            `json:"steps,omitempty"`
+	Tasks [][]Step          `json:"tasks,omitempty"`
+	Sched []int             `json:"sched,omitempty"`  // explicit schedule: scheduler choices in order
+	ChCap int               `json:"ch_cap,omitempty"` // EventChan capacity
+	Extra map[string]string `json:"extra,omitempty"`
 }
 
 // Step is one API call of a history or of a task script.
 type Step struct {
-	Op   string `json:"op"`             // eval | tryeval | dump | dumptable | compile | regkey | regvarop | copyconf | ...
-	Expr int    `json:"expr,omitempty"` // which shared Expr / program
-	Plan *Plan  `json:"plan,omitempty"`
-	Name string `json:"name,omitempty"`
-	Arg  string `json:"arg,omitempty"`
-	Mask int    `json:"mask,omitempty"`
-	Keys map[string]int16 `json:"keys,omitempty"`
-	Names []string `json:"names,omitempty"`
+	Op    string           `json:"op"`             // eval | tryeval | dump | dumptable | compile | regkey | regvarop | copyconf | ...
+	Expr  int              `json:"expr,omitempty"` // which shared Expr / program
+	Plan  *Plan            `json:"plan,omitempty"`
+	Name  string           `json:"name,omitempty"`
+	Arg   string           `json:"arg,omitempty"`
+	Mask  int              `json:"mask,omitempty"`
+	Keys  map[string]int16 `json:"keys,omitempty"`
+	Names []string         `json:"names,omitempty"`
 }
 
 func (w *World) Clone() *World {
